@@ -126,7 +126,7 @@ def make_pool():
     P["mp_rt"] = a([0.0, 0.25, 0.5])
     P["mp_rf"] = [a([440.0, 660.0]), a([]), a([220.0])]
     P["mp_et"] = a([0.0, 0.25, 0.5])
-    P["mp_ef"] = [a([440.0]), a([330.0]), a([220.0, 440.0])]
+    P["mp_ef"] = [a([440.0]), a([330.0]), a([440.0, 220.0])]        # a frame listed in descending order
     P["mp_et2"] = a([0.125, 0.375])
     P["mp_ef2"] = [a([440.0]), a([225.0])]
     P["mp_tp"] = a([1.0, 0.0, 1.0])
@@ -136,10 +136,10 @@ def make_pool():
     P["n_ri"] = a([[0.0, 0.5], [0.5, 1.0], [1.0, 2.0]])
     P["n_rp"] = a([440.0, 220.0, 330.0])
     P["n_rv"] = a([64.0, 100.0, 30.0])
-    P["n_ei"] = a([[0.04, 0.5], [0.5, 1.25], [1.5, 2.0]])
-    P["n_ep"] = a([442.0, 220.0, 330.0])
-    P["n_ev"] = a([60.0, 90.0, 30.0])
-    P["n_match"] = [(0, 0), (1, 1)]
+    P["n_ei"] = a([[0.5, 1.25], [0.04, 0.5], [1.5, 2.0]])            # estimated notes not in onset order
+    P["n_ep"] = a([220.0, 442.0, 330.0])
+    P["n_ev"] = a([90.0, 60.0, 30.0])
+    P["n_match"] = [(0, 1), (1, 0)]
     # segments
     P["s_ri"] = a([[0.0, 1.0], [1.0, 2.5], [2.5, 4.0]])
     P["s_rl"] = ["a", "b", "a"]
@@ -172,8 +172,10 @@ def make_pool():
     o1 = [(0.0, 60.0), (0.5, 62.0), (1.0, 64.0), (1.5, 65.0)]
     o2 = [(4.0, 60.0), (4.5, 62.0), (5.0, 64.0), (5.5, 65.0)]
     o3 = [(0.0, 60.0), (0.5, 62.0), (1.0, 64.0)]
-    P["pat_r"] = [[list(o1), list(o2)], [list(o3)]]
-    P["pat_e"] = [[list(o2)], [list(o3), list(o1)]]
+    # non-canonical on purpose (notes of some occurrences listed in descending order): an in-place sort of the
+    # caller's lists must be visible in the heap digest
+    P["pat_r"] = [[list(o1), list(o2)], [list(reversed(o3))]]
+    P["pat_e"] = [[list(reversed(o2))], [list(o3), list(reversed(o1))]]
     o4 = [(20.0, 70.0), (20.5, 71.0), (21.0, 73.0), (21.5, 75.0)]
     o5 = [(30.0, 70.0), (30.5, 71.0), (31.0, 73.0), (31.5, 75.0)]
     P["pat_r2"] = [[list(o1)], [list(o4)]]
